@@ -145,3 +145,172 @@ fn main() {
     sites::run(&mut r, args.seed);
     std::process::exit(r.finish());
 }
+
+// ---------------------------------------------------------------------------
+// C05: span macro forms
+// ---------------------------------------------------------------------------
+
+use std::sync::{atomic::{AtomicU64, Ordering}, Mutex};
+use vcommon::rec::Captured;
+
+pub static SPAN_EVENTS: Mutex<Vec<Captured>> = Mutex::new(Vec::new());
+
+fn span_emitter(evt: emit::Event<&dyn emit::props::ErasedProps>) {
+    SPAN_EVENTS.lock().unwrap_or_else(|e| e.into_inner()).push(Captured::of(&evt));
+}
+
+pub struct StepClock;
+static STEP_CLOCK: AtomicU64 = AtomicU64::new(1_000_000_000);
+impl emit::Clock for StepClock {
+    fn now(&self) -> Option<emit::Timestamp> {
+        Some(vcommon::rec::ts_from_nanos(STEP_CLOCK.fetch_add(1_000, Ordering::SeqCst)))
+    }
+}
+
+pub struct SeqRng;
+static SEQ_RNG: AtomicU64 = AtomicU64::new(1);
+impl emit::Rng for SeqRng {
+    fn fill<A: AsMut<[u8]>>(&self, mut arr: A) -> Option<A> {
+        let n = SEQ_RNG.fetch_add(1, Ordering::SeqCst);
+        let buf = arr.as_mut();
+        for b in buf.iter_mut() {
+            *b = 0;
+        }
+        let len = buf.len().min(8);
+        buf[..len].copy_from_slice(&n.to_le_bytes()[..len]);
+        Some(arr)
+    }
+}
+
+pub type SpanRt = emit::runtime::Runtime<emit::emitter::FromFn, emit::Empty, emit::platform::thread_local_ctxt::ThreadLocalCtxt, StepClock, SeqRng>;
+
+pub static SRT: SpanRt = emit::runtime::Runtime::build(
+    emit::emitter::FromFn::new(span_emitter),
+    emit::Empty,
+    emit::platform::thread_local_ctxt::ThreadLocalCtxt::shared(),
+    StepClock,
+    SeqRng,
+);
+
+pub fn as_err(err: &std::io::Error) -> &(dyn std::error::Error + 'static) {
+    err
+}
+
+pub fn span_events_take() -> Vec<Captured> {
+    std::mem::take(&mut *SPAN_EVENTS.lock().unwrap_or_else(|e| e.into_inner()))
+}
+
+/// Minimal executor for the generated async span functions.
+pub fn block_on<F: std::future::Future>(fut: F) -> F::Output {
+    use std::task::{Context, Poll, RawWaker, RawWakerVTable, Waker};
+    fn raw() -> RawWaker {
+        fn clone(_: *const ()) -> RawWaker {
+            raw()
+        }
+        fn noop(_: *const ()) {}
+        static VT: RawWakerVTable = RawWakerVTable::new(clone, noop, noop, noop);
+        RawWaker::new(std::ptr::null(), &VT)
+    }
+    let waker = unsafe { Waker::from_raw(raw()) };
+    let mut cx = Context::from_waker(&waker);
+    let mut fut = std::pin::pin!(fut);
+    loop {
+        if let Poll::Ready(v) = fut.as_mut().poll(&mut cx) {
+            return v;
+        }
+    }
+}
+
+/// A future that is Pending once (so async spans are suspended between polls).
+pub struct YieldOnce(pub bool);
+impl std::future::Future for YieldOnce {
+    type Output = ();
+    fn poll(mut self: std::pin::Pin<&mut Self>, _: &mut std::task::Context<'_>) -> std::task::Poll<()> {
+        if self.0 {
+            std::task::Poll::Ready(())
+        } else {
+            self.0 = true;
+            std::task::Poll::Pending
+        }
+    }
+}
+
+pub struct SpanExpect {
+    pub enabled: bool,
+    pub msg: &'static str,
+    /// expected `lvl` text; None = no lvl property
+    pub lvl: Option<&'static str>,
+    /// expected `err` text; None = no err property
+    pub err: Option<&'static str>,
+    pub props: &'static [(&'static str, &'static str)],
+    pub panics: bool,
+}
+
+pub fn check_span(r: &mut Report, seed: u64, site: &Site, evts: &[Captured], e: &SpanExpect, panicked: bool, ambient_after: usize) {
+    r.observe("span-invocations", 1);
+    r.observe("span-events", evts.len() as u64);
+    let mut bad: Vec<(String, String)> = Vec::new();
+    if panicked != e.panics {
+        bad.push(("panic-mismatch".into(), format!("invocation {} but the site {}", if panicked { "panicked" } else { "returned" }, if e.panics { "must panic" } else { "must return" })));
+    }
+    let want = if e.enabled { 1 } else { 0 };
+    if evts.len() != want {
+        bad.push(("completion-count".into(), format!("{} span events for one invocation, expected {}", evts.len(), want)));
+    }
+    if ambient_after != 0 {
+        bad.push(("ambient-left-behind".into(), format!("{} ambient properties visible after the span function returned", ambient_after)));
+    }
+    if let (true, Some(evt)) = (e.enabled, evts.first()) {
+        if evt.msg != e.msg {
+            bad.push(("message".into(), format!("span message {:?}, expected {:?}", evt.msg, e.msg)));
+        }
+        if evt.get("evt_kind") != Some("span") {
+            bad.push(("kind".into(), format!("evt_kind {:?}", evt.get("evt_kind"))));
+        }
+        match evt.extent {
+            Some((Some(s), t)) if s <= t => {}
+            other => bad.push(("extent".into(), format!("extent {:?} is not a forward range", other))),
+        }
+        if evt.get("lvl") != e.lvl {
+            bad.push(("level".into(), format!("lvl {:?}, expected {:?}", evt.get("lvl"), e.lvl)));
+        }
+        if evt.get("err") != e.err {
+            bad.push(("error".into(), format!("err {:?}, expected {:?}", evt.get("err"), e.err)));
+        }
+        for (k, v) in e.props {
+            if evt.get(k) != Some(*v) {
+                bad.push(("props".into(), format!("property {:?} is {:?}, expected {:?}", k, evt.get(k), v)));
+            }
+        }
+        for k in ["trace_id", "span_id"] {
+            if evt.get(k).is_none() {
+                bad.push(("ids".into(), format!("completed span carries no {}", k)));
+            }
+        }
+        for k in ["evt_kind", "lvl", "err", "span_name", "trace_id", "span_id"] {
+            if evt.props.iter().filter(|(pk, _, _)| pk == k).count() > 1 && k != "lvl" {
+                // `lvl` may legitimately be shadowed (completion level first-wins over the default)
+                bad.push(("duplicate-well-known".into(), format!("{} appears more than once", k)));
+            }
+        }
+    }
+    for (sig, what) in bad {
+        r.violation(
+            &format!("C05:gen:{}:{}", sig, site.form),
+            &format!("site {} ({} {}): {}", site.id, site.form, site.mix, what),
+            site.case(seed),
+        );
+    }
+}
+
+pub fn ambient_count() -> usize {
+    use emit::Ctxt;
+    let mut n = 0;
+    SRT.ctxt().with_current(|p| {
+        let _ = p.for_each(|_, _| {
+            n += 1;
+            ControlFlow::Continue(())
+        });
+    });
+    n
+}
